@@ -120,26 +120,65 @@ def consumed_length(chk: Check, repo: Repo, mr: MayRaise, lbd: LowerBound) -> No
     pos_lb = lbd.ret(hfk, hdr)
     chk.ob("body-starts-after-header", hfk.site(), isinstance(hl, int) and pos_lb == hl and all(isinstance(r.value, (ast.Attribute, ast.Name, ast.Constant)) for r in walk_local(hfk.node) if isinstance(r, ast.Return)),
            f"KNXIPHeader.from_knx returns HEADERLENGTH ({pos_lb}) as body offset", key="pos-body")
-    # IncompleteKNXIPFrame raise sites
+    # IncompleteKNXIPFrame raise sites: only the header parser (for a short header) and the frame parser (for a body
+    # shorter than the announced length) may say "incomplete"
     sites = []
     for f in repo.all_functions():
         if not f.module.name.startswith("xknx.knxip"):
             continue
-        par = {}
-        for p in ast.walk(f.node):
-            for ch in ast.iter_child_nodes(p):
-                par[ch] = p
         for n in walk_local(f.node):
             if isinstance(n, ast.Raise) and n.exc is not None and "IncompleteKNXIPFrame" in ast.unparse(n.exc):
-                sites.append((f, n, par.get(n)))
+                sites.append((f, n))
     chk.floor("IncompleteKNXIPFrame raise sites", len(sites), 2)
-    for f, n, p in sites:
-        t = p.test if isinstance(p, ast.If) and n in p.body else None
-        ok = isinstance(t, ast.Compare) and len(t.ops) == 1 and isinstance(t.ops[0], ast.Lt) and isinstance(t.left, ast.Call) and call_name(t.left) == "len"
-        rhs = ast.unparse(t.comparators[0]) if ok else "?"
-        ok = ok and (rhs.endswith("HEADERLENGTH") or rhs.endswith(".total_length"))
-        # nothing but the header validation may precede it (so the announced length was read from a valid header)
-        chk.ob("incomplete-only-when-more-octets-help", f.site(n), ok, f"{f.qualname}: `raise IncompleteKNXIPFrame` is guarded directly by `{ast.unparse(t) if t is not None else '?'}`", key=f"incomplete|{f.qualname}|{rhs}")
+    for f, n in sites:
+        c = CFG(f.node)
+        facts = c.must_facts()
+        nid = [x.id for x in c.nodes if x.ast is n]
+        fs = facts.get(nid[0], frozenset()) if nid else frozenset()
+        short = sorted(a for a, v in fs if v and a.startswith("len(") and " < " in a and (a.endswith("HEADERLENGTH") or a.endswith(".total_length")))
+        chk.ob("incomplete-only-when-more-octets-help", f.site(n), bool(short) and f.qualname in ("KNXIPHeader.from_knx", "KNXIPFrame.from_knx"), f"{f.qualname}: `raise IncompleteKNXIPFrame` is reached only with {short or 'no length shortfall established'}", key=f"incomplete|{f.qualname}")
+    # ... and for a short header, only when what has arrived is the beginning of a valid header: a table over header
+    # prefixes (cell evaluation of KNXIPHeader.from_knx on constant inputs by the abstract machine - nothing runs)
+    from ..absmachine import AbsMachine, Outcome, Raise, UNKNOWN
+    from ..exctable import ExcTable
+    from ..explore import Explorer
+    from ..loader import NOFOLD
+    ver = repo.const(hdr, "PROTOCOLVERSION")
+    if not isinstance(hl, int) or not isinstance(ver, int):
+        raise AnalysisError("KNXIPHeader: HEADERLENGTH / PROTOCOLVERSION do not fold")
+    st = repo.cls("xknx.knxip.knxip_enum", "KNXIPServiceType")
+    svc = {v for v in repo.enum_members(st).values() if isinstance(v, int)}
+    chk.floor("KNXIPServiceType members", len(svc), 20)
+    hc = CFG(hfk.node)
+    box: dict = {}
+
+    def hook(e, env):
+        v = repo.fold(e, hfk.module, hfk.cls) if isinstance(e, (ast.Attribute, ast.Name)) else NOFOLD
+        return v if v is not NOFOLD and isinstance(v, (int, bytes)) and not isinstance(v, bool) else UNKNOWN
+
+    def cm(c, env):
+        if call_name(c) == "KNXIPServiceType" and len(c.args) == 1:
+            v = box["am"].ev(c.args[0], env, {})
+            if isinstance(v, int):
+                return [Outcome(None, ("service", v) if v in svc else Raise("ValueError"))]
+        return None
+    am = AbsMachine(hc, ExcTable(repo), cm, hook)
+    box["am"] = am
+    good_svc, bad_svc = min(svc), next(x for x in range(0x10000) if x not in svc)
+    full_ok = bytes((hl, ver)) + good_svc.to_bytes(2, "big") + (20).to_bytes(2, "big")
+    cells = []
+    for k in range(0, 6):
+        cells.append((full_ok[:k], "IncompleteKNXIPFrame", f"first {k} octets of a valid header"))
+    cells.append((bytes((hl ^ 1,)), "CouldNotParseKNXIP", "one octet, not the header length"))
+    cells.append((bytes((0,)) * 3, "CouldNotParseKNXIP", "three zero octets"))
+    cells.append((bytes((hl, ver ^ 1)), "CouldNotParseKNXIP", "two octets, wrong protocol version"))
+    cells.append((bytes((hl, ver)) + bad_svc.to_bytes(2, "big"), "CouldNotParseKNXIP", "four octets, unknown service type"))
+    cells.append((bytes((hl, ver)) + bad_svc.to_bytes(2, "big") + b"\x00", "CouldNotParseKNXIP", "five octets, unknown service type"))
+    cells.append((bytes((hl ^ 1, ver)) + good_svc.to_bytes(2, "big") + b"\x00", "CouldNotParseKNXIP", "five octets, wrong header length octet"))
+    for data, want, label in cells:
+        paths = Explorer(hc, repo, am.step).run(hc.entry, [], {hfk.node.args.args[1].arg: data})
+        got = sorted({(p_.end_kind, str(p_.env.get("#raised"))) for p_ in paths})
+        chk.ob("incomplete-only-for-the-beginning-of-a-valid-header", hfk.site(), got == [("raise", want)], f"KNXIPHeader.from_knx({data.hex() or 'empty'}) [{label}]: {got}; required {want} - octets that no continuation turns into a frame are not 'incomplete' (a stream transport would keep them and lose the frame that follows)", key=f"header-prefix|{label}")
 
 
 def dispatch(chk: Check, repo: Repo) -> None:
